@@ -852,6 +852,8 @@ class dictable(Dict):
         b  |m     
         e  |m    
         """
+        if len(by) == 1 and isinstance(by[0], (list, tuple)):
+            by = tuple(by[0]) ## a list of keys: sort by these keys in the order given (self[(list,)] would compare whole rows as dicts, i.e. by column name order)
         if len(self) == 0:
             return self.copy()
         elif len(by):
